@@ -288,7 +288,7 @@ func (r *vfDavCMRun) request(c *vfDavCMCase) {
 	r.deep = trunc
 	r.env.Emit(r.t, map[string]any{"e": "req", "m": c.M, "src": c.Src, "dst": c.Dst, "host": c.Host, "ow": c.Ow,
 		"depth": c.Depth, "lock": c.Lock, "srcsp": c.SrcSp, "dstsp": c.DstSp, "rel": c.Rel, "hdr": hdr,
-		"status": w.Code, "post": vfDavPack(post), "truncated": trunc})
+		"status": w.Code, "post": vfDavPack(post), "truncated": trunc, "cap": vfDavSnapDepth})
 }
 
 // TestVerifDavCopyMove: record mode with TLC-generated requests. Requests of one class (method,
